@@ -2,6 +2,7 @@ package check
 
 import (
 	"fmt"
+	"go/constant"
 
 	"golang.org/x/tools/go/ssa"
 )
@@ -27,11 +28,91 @@ func runErrProto(c *Ctx, r *Reporter) {
 		}
 		return p.SSAFunc(fd.Obj)
 	}
-	reset, set, global := find("resetGlobalErr"), find("setGlobalErr"), find("globalErr")
-	if reset == nil || set == nil || global == nil {
+	reset, set := find("resetGlobalErr"), find("setGlobalErr")
+	upd := find("(*scope).update")
+	if reset == nil || set == nil || upd == nil {
 		return
 	}
-	// who may call
+	// The bindings of err and errmsg are changed by scope.update with one of these names — written as a constant, or
+	// handed down as a constant through the parameters of helpers (globalErr, or a generic "update this global").
+	// errUpdates lists what a function rebinds when called with the given arguments: the name, the constant value of
+	// a bool bound to it ("" if unknown) and whether the update lies on every path that returns.
+	type errUpd struct {
+		name, flag string
+		uncond     bool
+		pos        ssa.Instruction
+	}
+	var errUpdates func(fn *ssa.Function, bind map[ssa.Value]ssa.Value, depth int) []errUpd
+	resolve := func(v ssa.Value, bind map[ssa.Value]ssa.Value) ssa.Value {
+		for i := 0; i < 4; i++ {
+			if b, ok := bind[v]; ok {
+				v = b
+				continue
+			}
+			break
+		}
+		return v
+	}
+	errUpdates = func(fn *ssa.Function, bind map[ssa.Value]ssa.Value, depth int) []errUpd {
+		var out []errUpd
+		if fn == nil || len(fn.Blocks) == 0 || depth > 3 {
+			return nil
+		}
+		for _, b := range fn.Blocks {
+			for _, ins := range b.Instrs {
+				call, ok := ins.(*ssa.Call)
+				if !ok || call.Call.StaticCallee() == nil {
+					continue
+				}
+				uncond := !anyReturnPathAvoiding(fn.Blocks[0], []*ssa.BasicBlock{b}) && !inCycle(b)
+				sc := call.Call.StaticCallee()
+				if sc == upd && len(call.Call.Args) >= 3 {
+					k, ok := resolve(call.Call.Args[1], bind).(*ssa.Const)
+					if !ok || k.Value == nil || k.Value.Kind() != constant.String {
+						continue
+					}
+					name := constant.StringVal(k.Value)
+					if name != "err" && name != "errmsg" {
+						continue
+					}
+					flag := ""
+					val := resolve(call.Call.Args[2], bind)
+					if mi, ok := val.(*ssa.MakeInterface); ok {
+						val = mi.X
+					}
+					if al, ok := val.(*ssa.Alloc); ok {
+						if fv := storedFieldValue(al, "V"); fv != nil {
+							if kc, ok := resolve(fv, bind).(*ssa.Const); ok && kc.Value != nil && kc.Value.Kind() == constant.Bool {
+								flag = kc.Value.ExactString()
+							}
+						}
+					}
+					out = append(out, errUpd{name, flag, uncond, call})
+					continue
+				}
+				if sc.Pkg != fn.Pkg || sc == reset || sc == set {
+					continue
+				}
+				nb := map[ssa.Value]ssa.Value{}
+				for k, v := range bind {
+					nb[k] = v
+				}
+				for i, prm := range sc.Params {
+					if i < len(call.Call.Args) {
+						nb[prm] = resolve(call.Call.Args[i], bind)
+					}
+				}
+				for _, u := range errUpdates(sc, nb, depth+1) {
+					u.uncond = u.uncond && uncond
+					u.pos = call
+					out = append(out, u)
+				}
+			}
+		}
+		return out
+	}
+	// who may touch the globals: the two conversion built-ins, through resetGlobalErr and setGlobalErr
+	touches := map[*ssa.Function]bool{}
 	for _, fn := range ssaFuncsOf(p, pkg) {
 		for _, b := range fn.Blocks {
 			for _, ins := range b.Instrs {
@@ -39,15 +120,37 @@ func runErrProto(c *Ctx, r *Reporter) {
 				if !ok {
 					continue
 				}
-				sc := call.Call.StaticCallee()
-				if sc != reset && sc != set && sc != global {
-					continue
+				if sc := call.Call.StaticCallee(); sc == reset || sc == set {
+					name := ssaDisplayName(fn)
+					okCaller := name == "str2numFunc" || name == "str2boolFunc"
+					r.Check(okCaller, fmt.Sprintf("%s#calls:%s", ssaQName(fn), sc.Name()), p.Rel(instrPos(call)), "err/errmsg are touched only by the conversion built-ins", name+" changes the global err/errmsg: only str2num and str2bool may")
 				}
-				name := ssaDisplayName(fn)
-				okCaller := name == "str2numFunc" || name == "str2boolFunc" || (sc == global && (fn == reset || fn == set))
-				r.Check(okCaller, fmt.Sprintf("%s#calls:%s", ssaQName(fn), sc.Name()), p.Rel(instrPos(call)), "err/errmsg are touched only by the conversion built-ins", name+" changes the global err/errmsg: only str2num and str2bool may")
 			}
 		}
+		if fn != reset && fn != set && len(errUpdates(fn, nil, 0)) > 0 {
+			touches[fn] = true
+		}
+	}
+	// … and what rebinds err/errmsg on its own account is a helper of those two, called by nothing else
+	under := map[*ssa.Function]bool{}
+	for _, root := range []*ssa.Function{reset, set} {
+		for _, h := range regionFns(root, 3, nil) {
+			under[h] = true
+		}
+	}
+	for _, fn := range ssaFuncsOf(p, pkg) {
+		if !touches[fn] {
+			continue
+		}
+		okT := under[fn]
+		if okT {
+			for _, caller := range ssaFuncsOf(p, pkg) {
+				if len(callsTo(caller, fn)) > 0 && !under[caller] {
+					okT = false
+				}
+			}
+		}
+		r.Check(okT, fmt.Sprintf("%s#rebinds-err", ssaQName(fn)), p.Rel(fn.Pos()), "rebinds err/errmsg on behalf of resetGlobalErr / setGlobalErr only", ssaDisplayName(fn)+" rebinds the global err/errmsg outside the reset/set protocol of str2num and str2bool")
 	}
 	for _, name := range []string{"str2numFunc", "str2boolFunc"} {
 		fn := find(name)
@@ -97,31 +200,24 @@ func runErrProto(c *Ctx, r *Reporter) {
 		}
 		r.Check(okSet, construct+"#set-on-failure", p.Rel(fn.Pos()), "err/errmsg are set exactly on the failure edge of the conversion", name+" must call setGlobalErr exactly once, on the edge where the strconv error is non-nil")
 	}
-	// resetGlobalErr / setGlobalErr call globalErr unconditionally with the right flag
+	// resetGlobalErr rebinds err=false, setGlobalErr err=true, and both rebind errmsg — on every path, whatever helper does it
 	for fn, want := range map[*ssa.Function]string{reset: "false", set: "true"} {
-		calls := callsTo(fn, global)
-		okc := len(calls) == 1 && calls[0].Block() == fn.Blocks[0] && len(fn.Blocks) == 1
-		if okc {
-			if k, ok := calls[0].Common().Args[1].(*ssa.Const); !ok || k.Value == nil || k.Value.ExactString() != want {
-				okc = false
+		ups := errUpdates(fn, nil, 0)
+		errOK, msgOK, bad := false, false, ""
+		for _, u := range ups {
+			switch {
+			case u.name == "err" && u.flag == want && u.uncond:
+				errOK = true
+			case u.name == "err":
+				bad = "err is rebound to " + u.flag + " or only on some paths"
+			case u.name == "errmsg" && u.uncond:
+				msgOK = true
+			case u.name == "errmsg":
+				bad = "errmsg is rebound only on some paths"
 			}
 		}
-		r.Check(okc, "pkg/evaluator."+fn.Name()+"#unconditional", p.Rel(fn.Pos()), "rebinds err="+want+" unconditionally", fn.Name()+" must call globalErr(scope, "+want+", …) unconditionally")
-	}
-	// globalErr updates both names on every path
-	if upd := find("(*scope).update"); upd != nil {
-		calls := callsTo(global, upd)
-		names := map[string]bool{}
-		for _, cc := range calls {
-			if k, ok := cc.Common().Args[1].(*ssa.Const); ok && k.Value != nil {
-				names[k.Value.ExactString()] = true
-				if anyReturnPathAvoiding(global.Blocks[0], []*ssa.BasicBlock{cc.Block()}) {
-					names["!"+k.Value.ExactString()] = true
-				}
-			}
-		}
-		okg := names[`"err"`] && names[`"errmsg"`] && !names[`!"err"`] && !names[`!"errmsg"`]
-		r.Check(okg, "pkg/evaluator.globalErr#both", p.Rel(global.Pos()), "err and errmsg are both rebound on every path", "globalErr must update both err and errmsg on every path that returns")
+		r.Check(errOK && msgOK && bad == "", "pkg/evaluator."+fn.Name()+"#unconditional", p.Rel(fn.Pos()), "rebinds err="+want+" and errmsg on every path",
+			fn.Name()+" must rebind err to "+want+" and errmsg on every path that returns ("+bad+"): a conversion would leave the error state of an earlier one behind")
 	}
 	// test bookkeeping in evalFunccall: total++ on every path through the `test` branch, failures appended
 	if ef := find("(*Evaluator).evalFunccall"); ef != nil {
